@@ -337,10 +337,11 @@ def _table_sweep_case(case, tier, seed):
             d = density.element_densities.get(el.symbol)
             d = d[0] if isinstance(d, tuple) else d
             ok = el.density == d
-            if ok and el.isotopes:
-                a = el.isotopes[0]
+            for a in (el.isotopes if ok else ()):
                 di = el[a].density
-                ok = (di is None) if d is None else abs(di - d * el[a].mass / el.mass) <= 1e-12 * d
+                if not ((di is None) if d is None else abs(di - d * el[a].mass / el.mass) <= 1e-13 * d):
+                    ok = False
+                    break
             if ok:
                 res['discharged'] += 1
             else:
